@@ -342,6 +342,22 @@ pub fn execute(sb: &Sandbox, base: &Files, op: &OpSpec, plan: &FaultPlan) -> Obs
                                 "position-outside-text".to_string(),
                                 format!("diagnostic {:?} carries range {a}..{b} which lies in no source text of the project", d.message),
                             ));
+                        } else if d.stage.eq_ignore_ascii_case("parser") {
+                            // a parser diagnostic points at what the parser objects to: parsing
+                            // the texts on disk again (the parser is a pure function of the
+                            // text) must yield a diagnostic with exactly this range for one of them
+                            let reproduced = texts.iter().filter_map(|t| std::str::from_utf8(t).ok()).any(|t| {
+                                parser::parse(std::path::Path::new("x.gom"), t)
+                                    .diagnostics
+                                    .iter()
+                                    .any(|pd| pd.range().map(|r| (u32::from(r.start()), u32::from(r.end()))) == Some((a, b)))
+                            });
+                            if !reproduced {
+                                problems.push((
+                                    "position-outside-text".to_string(),
+                                    format!("parser diagnostic {:?} carries range {a}..{b}, but parsing the source texts of the project yields no diagnostic at that position (the position does not refer to the text on disk)", d.message),
+                                ));
+                            }
                         }
                     }
                 }
